@@ -17,9 +17,11 @@ ASSUMPTIONS = ["source injections enter the model as per-step additive oracle ar
 TRUSTED = ["correspondence harness: float -> exact rational; per-step comparison, tolerance 1e-9*max|field| outside the dyadic regime"]
 LEVEL_TEXT = ("Theorem for every PML-free scene of the model (any grid, ghost factors, widths, masks, iso/diag materials with sigma_E and sigma_H "
               "such that 1+-f <> 0, arbitrary source injections): backward(forward s) = s on E, H (every in-box cell) and the step counter, for "
-              "every wall-compatible s; forward preserves wall compatibility. Tie: per-step correspondence of forward and backward on hand-built and placed scenes.")
-LEVEL_NOTE = ("Partial with respect to the property text in one respect: the 9-component (fully anisotropic) lossless branch of update_E/update_H is not in "
-              "the Coq model; it is exercised only by the round-trip predicate on the implementation. Sources are additive oracles.")
+              "every wall-compatible s; forward preserves wall compatibility. The fully anisotropic lossless tiers (9-component inverse permittivity and / or "
+              "permeability, symmetric or not; four-point co-location averages with ghost reads; model/YeeFull.v) have the same theorem "
+              "(C02_full_tensor_backward_forward_id). Tie: per-step correspondence of forward and backward on hand-built (incl. 9-component, bit-exact) and placed scenes.")
+LEVEL_NOTE = ("The 9-component model covers uniform grids (the width-weighted averages of stretched grids are exercised by the round-trip predicate only); "
+              "placed scenes with full tensors are compared by the predicate. Sources are additive oracles.")
 TECHNIQUE = "Coq proof (per-cell field identities + in-box extensionality of the curl) + vm_compute correspondence over Qc"
 
 PER = {"min_x": "periodic", "max_x": "periodic", "min_y": "periodic", "max_y": "periodic"}
@@ -62,6 +64,10 @@ def gen_cases(ctx):
         c.update(kind="hand", steps=2, back=2)
         if i % 4 == 2:
             c["sigma"] = "EH"
+        if i % 4 == 3:      # fully anisotropic lossless tier: 9-component (non-symmetric) inverse permittivity, every other time also permeability
+            c.pop("edges", None)
+            c.pop("sigma", None)
+            c.update(full_eps=True, full_mu=bool((i // 4) % 2), pow2=True)
         cases.append(c)
     for i in range(n_placed):
         cases.append(placed_case(ctx.rng, ctx.quick, i))
@@ -78,7 +84,7 @@ def run_cases(ctx, cases):
 
 
 def modelled(case, out):
-    return "error" not in out and out.get("ncomp_eps", 1) != 9
+    return "error" not in out and (out.get("ncomp_eps", 1) != 9 or case["kind"] == "hand")
 
 
 def coq_expr(case, out):
@@ -92,6 +98,9 @@ def coq_expr(case, out):
     scale = max(Y.maxabs(out), 1.0)
     st = out["states"]
     bk = [st[-1]] + out["back"]
+    if case["kind"] == "hand" and (out.get("ieps9") or out.get("imu9")):      # 9-component tiers: model/YeeFull.v
+        steps = [("forward_fullX", a, b) for a, b in zip(st, st[1:])] + [("backward_fullX", a, b) for a, b in zip(bk, bk[1:])]
+        return Y.full_steps_expr(case["shape"], sc, out, steps, ex, scale=scale)
     steps = [("forwardX", a, b) for a, b in zip(st, st[1:])] + [("backwardX", a, b) for a, b in zip(bk, bk[1:])]
     return Y.steps_expr(case["shape"], sc, steps, ex, scale=scale)
 
@@ -117,7 +126,7 @@ def nontrivial(case, out):
 
 def classify(case, out):
     if case["kind"] == "hand":
-        return "hand|" + C01.classify(case, out)
+        return "hand|" + C01.classify(case, out) + ("|full-eps" if case.get("full_eps") else "") + ("|full-mu" if case.get("full_mu") else "")
     m = case["spec"].get("mats") or {}
     return "placed|" + "+".join(s["kind"] + ("M" if s.get("mag") else "") for s in case["spec"]["sources"]) + \
         ("|sigE" if m.get("sigma_e") else "") + ("|sigH" if m.get("sigma_m") else "") + ("|full-tensor" if out.get("ncomp_eps") == 9 else "")
